@@ -18,9 +18,10 @@ import (
 // operations panic with ErrNaN (receiver left valid); nothing else ever panics.
 
 const (
-	c04Bin   = 4 * 36 * 6 * 4 * 2 // op x classes x mode x magnitude x (fresh | z=x)
-	c04FMA   = 216 * 6 * 4
-	c04Sqrt  = 6 * 6 * 3 * 2
+	c04Recv  = 3                            // receiver state: fresh | stale inexact result | stale negative zero
+	c04Bin   = 4 * 36 * 6 * 4 * 2 * c04Recv // op x classes x mode x magnitude x (distinct | z=x) x receiver state
+	c04FMA   = 216 * 6 * 4 * c04Recv
+	c04Sqrt  = 6 * 6 * 3 * 2 * c04Recv
 	c04Table = c04Bin + c04FMA + c04Sqrt
 )
 
@@ -113,11 +114,15 @@ func c04Case(c *hx.Ctx, r *hx.RNG, idx int64) {
 // c04Cell checks one cell of the exhaustively enumerated class table.
 func c04Cell(c *hx.Ctx, r *hx.RNG, idx int64) {
 	k := &opCase{}
+	recvState := []int{0, 1, 4}[idx%c04Recv]
+	full := idx
+	idx /= c04Recv
+	_ = full
 	var hw float64
 	part := partitions4[0]
 	equalMag := false
 	switch {
-	case idx < c04Bin:
+	case idx < c04Bin/c04Recv:
 		i := idx
 		alias := int(i % 2)
 		i /= 2
@@ -154,8 +159,8 @@ func c04Cell(c *hx.Ctx, r *hx.RNG, idx int64) {
 			part = partitions3[1] // z = x
 		}
 		k.class = fmt.Sprintf("table/%s", k.op)
-	case idx < c04Bin+c04FMA:
-		i := idx - c04Bin
+	case idx < (c04Bin+c04FMA)/c04Recv:
+		i := idx - c04Bin/c04Recv
 		mag := int(i % 4)
 		i /= 4
 		k.mode = int(i % 6)
@@ -180,7 +185,7 @@ func c04Cell(c *hx.Ctx, r *hx.RNG, idx int64) {
 		part = partitions4[int(idx)%len(partitions4)]
 		k.class = "table/FMA"
 	default:
-		i := idx - c04Bin - c04FMA
+		i := idx - (c04Bin+c04FMA)/c04Recv
 		alias := int(i % 2)
 		i /= 2
 		size := int(i % 3)
@@ -205,6 +210,7 @@ func c04Cell(c *hx.Ctx, r *hx.RNG, idx int64) {
 		k.p = int64(r.Range(1, 2400))
 	}
 	k.attrs(r)
+	k.dirty = recvState // enumerated, not drawn
 	k.applyShape(part)
 	shape := shapeName(part, k.arity())
 	// when sharing changed operand values the hardware reference no longer describes the case: recompute classes from values
@@ -242,7 +248,8 @@ func c04Cell(c *hx.Ctx, r *hx.RNG, idx int64) {
 	if k.arity() == 3 {
 		cell = fmt.Sprintf("%s(%s,%s,%s)", k.op, valClass(k.x), valClass(k.y), valClass(k.u))
 	}
-	c.Eval(hx.HashStr(fmt.Sprintf("%s|%d|%s|%v", cell, k.mode, shape, equalMag)), true, k.class)
+	c.Eval(hx.HashStr(fmt.Sprintf("%s|%d|%s|%v|%d", cell, k.mode, shape, equalMag, recvState)), true, k.class)
+	c.Classes[fmt.Sprintf("receiver-state/%d", recvState)]++
 	if c.WantSample(k.class) {
 		c.Sample(k.class, fmt.Sprintf("%s mode=%s shape=%s -> %s", cell, oracle.ModeNames[k.mode], shape, got))
 	}
